@@ -155,10 +155,11 @@ fn run_write_case(rng: &mut Rng, w: &WriteCase, checked: bool, rep: &mut Report)
     let (prov, res) = eg::run_case(&case);
     let r = &res[0];
     // window in bytes as the property means it (no wrap-around of the 16-bit byte address)
-    let len_words = if w.via_start_at { w.len as u32 / 2 } else { w.len as u32 };
+    let len_words = if w.via_start_at { (w.len as u32).div_ceil(2) } else { w.len as u32 };
     let lo = 2 * w.start as u32;
-    let hi = lo + 2 * len_words;
-    let addressable = hi <= 0xffff;
+    // the window is clipped to the 2^16 words of the address space
+    let hi = (lo + 2 * len_words).min(0x2_0000);
+    let addressable = true;
     let n = w.payload.len() as u32;
     let padded = n + n % 2;
     if addressable {
@@ -195,18 +196,20 @@ fn run_write_case(rng: &mut Rng, w: &WriteCase, checked: bool, rep: &mut Report)
                 break;
             }
         }
-        // outcome: a write must not crash the caller
-        if r.body.contains("!write_all:slice") {
-            eg::fail(rep, "c14/write-all-odd-panics", "write_all of an odd-length payload panics after storing it (write() reports 2 bytes for the padded last byte)", &line);
-        } else if r.body.contains("!write_all:zero") {
-            eg::fail(rep, "c14/write-all-overrun-panics",
-                "write_all of a payload longer than the range panics ('write() returned Ok(0)') instead of returning an error; via start_at every odd length ends here",
-                &line,
-            );
-        } else if r.body.contains('!') {
+        // outcome: a write must not crash the caller; a payload that fits is accepted, one that does not is an error
+        if r.body.contains('!') {
             eg::fail(rep, "c14/write-panics", &format!("write panicked: {}", r.body), &line);
         } else if !w.single_write && padded <= hi - lo && !r.body.contains("a=ok") {
             eg::fail(rep, "c14/write-all-failed", &format!("fitting payload not written: {}", r.body), &line);
+        } else if !w.single_write && padded > hi - lo && !r.body.contains("a=E:overrun") {
+            eg::fail(rep, "c14/write-all-overrun-accepted", &format!("payload longer than the window not refused: {}", r.body), &line);
+        } else if w.single_write {
+            // `write` must never report more bytes than it was given
+            if let Some(k) = r.body.split(',').next().and_then(|t| t.strip_prefix("w=")).and_then(|t| t.parse::<u32>().ok()) {
+                if k > n || k != n.min(stored) {
+                    eg::fail(rep, "c14/write-count-reported", &format!("write of {n} bytes reported {k}, stored {stored}"), &line);
+                }
+            }
         }
     } else if r.body.contains('!') || (r.log.iter().any(|(wa, _)| (2 * *wa as u32) < lo)) {
         eg::fail(rep, "c14/write-range-overflow",
